@@ -204,3 +204,68 @@ func H20_dispatch() {
 	vrtReach("C20.done")
 	svc.stop()
 }
+
+// H20_two_requests: two completed Subscribe requests whose filters overlap;
+// every inbound message is handed exactly once to the callback of each
+// request it matches - also when one of the callbacks returns an error.
+func H20_two_requests() {
+	svc, c := vrtClientService()
+	cln := &Client{svc: svc}
+	failing := vrtChoice("failing", 3) // which callback reports an error (2: none)
+	filters := [2][]byte{[]byte("a/+"), []byte("a/b")}
+	if vrtBool("same_filter") {
+		filters[1] = filters[0]
+	}
+	calls := [2]int{}
+	completions := 0
+	done := OnCompleteFunc(func(msg, ack message.Message, err error) error {
+		completions++
+		return nil
+	})
+	for i := 0; i < 2; i++ {
+		i := i
+		cb := OnPublishFunc(func(m *message.PublishMessage) error {
+			calls[i]++
+			if failing == i {
+				return fmt.Errorf("callback %d failed", i)
+			}
+			return nil
+		})
+		sm := message.NewSubscribeMessage()
+		sm.AddTopic(filters[i], 1)
+		vrtAssert("C20.subscribe_call_ok", cln.Subscribe(sm, done, cb) == nil)
+		vrtQuiesce()
+		req, okr := vrtParse(c.peerTake())
+		if !okr || len(req) != 1 || req[0].Typ != specSUBSCRIBE {
+			vrtAssert("C20.subscribe_on_the_wire", false)
+			return
+		}
+		c.peerSend(specEncode(&specPkt{Typ: specSUBACK, ID: req[0].ID, Codes: []byte{1}}))
+		vrtQuiesce()
+	}
+	vrtAssert("C20.subscribes_completed", completions == 2)
+	topicsIn := [][]byte{[]byte("a/b"), []byte("a/c"), []byte("b")}
+	q := vrtByte("qos")
+	vrtAssume(q <= 1)
+	for _, T := range topicsIn {
+		before := calls
+		pk := &specPkt{Typ: specPUBLISH, Flags: q << 1, Topic: T, Payload: []byte("m")}
+		if q > 0 {
+			pk.ID = 9
+		}
+		c.peerSend(specEncode(pk))
+		vrtQuiesce()
+		c.peerTake()
+		for i := 0; i < 2; i++ {
+			want := 0
+			if specMatch(filters[i], T) {
+				want = 1
+			}
+			vrtAssert("C20.callback_once_per_matching_message", calls[i]-before[i] == want)
+		}
+	}
+	vrtAssert("C20.connection_survives_callback_error", !c.isClosed())
+	vrtObserve("two", calls[0], calls[1])
+	vrtReach("C20.two_requests")
+	svc.stop()
+}
